@@ -603,6 +603,75 @@ def run_compound(chk, rng, n: int, bad: list):  # noqa: C901, PLR0912, PLR0915
                         except Exception as e:  # noqa: BLE001
                             bad.append({"what": f"as_explicit() of {what} could not be evaluated", "error": repr(e)[:200]})
 
+    # ---------------- the unfolded implementation object REWRITTEN after doit(): expand(), expand(trig=True),
+    # replacement of a whole argument by an equal sum (xreplace), direct construction with a sum argument.
+    # The value of every argument is unchanged, so the generated code must still give the matrix at b1 + b2.
+    B1, B2 = u(-0.45, 0.45), u(-0.45, 0.45)
+    n12 = lz.ArraySize(b1)
+
+    def rewrites(cls):
+        base = cls(b1 + b2, n_events=n12).doit()
+        out = {"doit().expand()": lambda: base.expand(),
+               "doit().expand(trig=True)": lambda: base.expand(trig=True)}
+        k = 2  # gamma_beta / sin_angle
+        summed = base.args[k].expand(trig=True)
+        out["doit().xreplace({argument: equal sum})"] = lambda: base.xreplace({base.args[k]: summed})
+        out["direct construction with a sum argument"] = lambda: type(base)(*[summed if i == k else a for i, a in enumerate(base.args)])
+        k1 = 1  # gamma / cos_angle
+        summed1 = base.args[k1].expand(trig=True)
+        out["direct construction with expanded first entry"] = lambda: type(base)(*[summed1 if i == k1 else a for i, a in enumerate(base.args)])
+        return out
+
+    for cname, cls in (("BoostZMatrix", lz.BoostZMatrix), ("RotationYMatrix", lz.RotationYMatrix),
+                       ("RotationZMatrix", lz.RotationZMatrix)):
+        for rname, make in rewrites(cls).items():
+            what = f"{cname}(b1 + b2).{rname}"
+            try:
+                obj = make()
+            except Exception as e:  # noqa: BLE001
+                bad.append({"what": f"rewriting the unfolded {cname} failed", "rewrite": rname, "error": repr(e)[:300]})
+                continue
+            for cse in (False, True):
+                try:
+                    f = sp.lambdify([b1, b2], obj, "numpy", cse=cse)
+                except Exception as e:  # noqa: BLE001
+                    bad.append({"what": f"lambdify failed for {what}", "cse": cse, "error": repr(e)[:300]})
+                    continue
+                M = run_f(f, [B1, B2], what, cse)
+                if M is None:
+                    continue
+                if M.shape != (nev, 4, 4):
+                    bad.append({"what": f"{what} code has the wrong shape", "cse": cse, "shape": list(M.shape)})
+                    continue
+                for k in range(nev):
+                    x = mp.mpf(float(B1[k])) + mp.mpf(float(B2[k]))
+                    ref = mp.eye(4)
+                    if cname == "BoostZMatrix":
+                        g = 1 / mp.sqrt(1 - x * x)
+                        gf = float(g)
+                        ref[0, 0] = ref[3, 3] = g
+                        ref[0, 3] = ref[3, 0] = -g * x
+                        tol_e = SAFETY * (gamma_err(gf) + 8 * EPS * gf * gf) * gf + 4 * SAFETY * EPS
+                    else:
+                        c, sn = mp.cos(x), mp.sin(x)
+                        if cname == "RotationYMatrix":
+                            ref[1, 1] = ref[3, 3] = c
+                            ref[1, 3] = sn
+                            ref[3, 1] = -sn
+                        else:
+                            ref[1, 1] = ref[2, 2] = c
+                            ref[1, 2] = -sn
+                            ref[2, 1] = sn
+                        tol_e = 4 * tol_r
+                    chk.count(("rewritten", cname, rname, cse, k))
+                    d = max_abs(mp_of(M[k], mp) - ref) if np.all(np.isfinite(M[k])) else mp.inf
+                    if d > tol_e:
+                        bad.append({"what": f"code generated for a {cname} implementation object rewritten after doit() "
+                                            "is not the matrix at the value of its argument",
+                                    "rewrite": rname, "cse": cse, "b1": float(B1[k]), "b2": float(B2[k]),
+                                    "max_abs_diff": float(d), "tolerance": tol_e, "observed": M[k].tolist(),
+                                    "expected_03_or_13": float(ref[0, 3] if cname == "BoostZMatrix" else ref[1, 3])})
+
     # ---------------- velocity computed from a momentum along z: pz/E and 1 - (E - pz)/E
     zm = []
     for _ in range(nev):
